@@ -830,11 +830,11 @@ class Collection(object):
                             # existing_document
                             subdocument[nested_field_list[-1]] = pull_results
                         else:
-                            arr = existing_document
-                            for field_part in nested_field_list:
-                                if field_part not in arr:
-                                    break
-                                arr = arr[field_part]
+                            try:
+                                arr = helpers.get_value_by_dot(existing_document, field)
+                            except KeyError:
+                                # nothing to pull from when the path does not exist
+                                continue
                             if not isinstance(arr, list):
                                 continue
 
